@@ -220,6 +220,78 @@ fn check_prog(ctx: &Ctx, isa: &Isa, family: &str, prog: &[Stmt]) {
         ));
     }
     vice_check(ctx, &built, &text, family);
+    image_check(ctx, &built, &cert, &text, family);
+}
+
+/// "The image consists of exactly the bytes of the statements": the segments are merged into the bank
+/// image (what `mos build` writes) and every statement's bytes must sit at (address - start of the
+/// image), everything in between being the fill value 0. Programs in which two statements write the
+/// same address are left out (which one wins is C09's subject).
+fn image_check(ctx: &Ctx, built: &probe::Built, cert: &Cert, text: &str, family: &str) {
+    if !cert.problems.is_empty() {
+        return;
+    }
+    let cg = match &built.ctx {
+        Some(c) => c,
+        None => return,
+    };
+    let chunks: Vec<&crate::cert::Chunk> = cert.chunks.iter().filter(|c| !c.bytes.is_empty()).collect();
+    if chunks.is_empty() {
+        return;
+    }
+    for (i, a) in chunks.iter().enumerate() {
+        for b in chunks.iter().skip(i + 1) {
+            if a.addr < b.addr + b.bytes.len() && b.addr < a.addr + a.bytes.len() {
+                ctx.count("image_not_judged_overlapping_writes");
+                return;
+            }
+        }
+    }
+    let banks = match mvlib::panics::guard(|| {
+        let mut bw = mos_core::io::BinaryWriter {};
+        bw.merge_segments(cg).map(|banks| banks.iter().map(|b| (b.range(), b.data().to_vec())).collect::<Vec<_>>()).map_err(|_| ())
+    }) {
+        Ok(Ok(b)) => b,
+        Ok(Err(())) => {
+            ctx.count("image_merge_rejected");
+            return;
+        }
+        Err(p) => {
+            ctx.finding(Finding::new(
+                format!("image:panic:{}", p.site),
+                format!("merging the segments of {:?} panics: {}", text, p.message),
+                json!({"kind": "c02", "family": family, "files": {"main.asm": text}}),
+            ));
+            return;
+        }
+    };
+    if banks.len() != 1 {
+        ctx.count("image_not_judged_several_banks");
+        return;
+    }
+    ctx.count("image_checked");
+    let (range, data) = &banks[0];
+    let lo = chunks.iter().map(|c| c.addr).min().unwrap();
+    let hi = chunks.iter().map(|c| c.addr + c.bytes.len()).max().unwrap();
+    let mut expect = vec![0u8; hi - lo];
+    for c in &chunks {
+        expect[c.addr - lo..c.addr - lo + c.bytes.len()].copy_from_slice(&c.bytes);
+    }
+    if (range.start, range.end) != (lo, hi) || *data != expect {
+        let first = (0..expect.len().min(data.len())).find(|i| expect[*i] != data[*i]);
+        ctx.finding(Finding::new(
+            format!("image:differs:{}", family),
+            format!(
+                "build of {:?}: the statements write ${:04x}..${:04x}, the bank image covers ${:04x}..${:04x} ({} bytes){}",
+                text, lo, hi, range.start, range.end, data.len(),
+                match first {
+                    Some(i) => format!("; first difference at ${:04x}: image {:02x}, statements {:02x}", lo + i, data[i], expect[i]),
+                    None => String::new(),
+                }
+            ),
+            json!({"kind": "c02", "family": family, "files": {"main.asm": text}}),
+        ));
+    }
 }
 
 /// Family B: scoping shapes.
@@ -503,7 +575,7 @@ pub fn run(ctx: &Ctx, replay: Option<&Value>) -> i32 {
     ctx.set("family_d_max_passes_needed", json!(max_passes.load(std::sync::atomic::Ordering::Relaxed)));
     ctx.finish(
         "exploration",
-        "A: every statement sequence of length <= k over 28 items (references to two labels in zero-page/absolute/indexed/branch/data positions, label definitions, a dependent constant, pc assignments, .align, text, braces, block start/end references) assembled at $00f8 so that every forward reference is a zero-page/absolute decision; B: 3-level scope shapes x definition mask x use level x 10 path forms x use before/after x instruction/data x default / explicitly defined segment; C: 1-3 segments x start (3 literals or end of another segment) x pc relocation x cross references, each with segment blocks and with segment switches (`.segment \"x\"` without a block) behind code that belongs to the first segment; D: promotion ladders of chain length 1..40 (quick) / 1..90 (thorough) from two start addresses, which need chain+5 passes to settle. Every *successful* build is certified: label/block symbols = cursor addresses, every statement's bytes = ISA/evaluator result under the implementation's final symbols, no unexplained bytes, segments.x.start/end = ranges, VICE symbols = label values. non-trivial = distinct assembled program containing at least one symbol reference",
+        "A: every statement sequence of length <= k over 28 items (references to two labels in zero-page/absolute/indexed/branch/data positions, label definitions, a dependent constant, pc assignments, .align, text, braces, block start/end references) assembled at $00f8 so that every forward reference is a zero-page/absolute decision; B: 3-level scope shapes x definition mask x use level x 10 path forms x use before/after x instruction/data x default / explicitly defined segment; C: 1-3 segments x start (3 literals or end of another segment) x pc relocation x cross references, each with segment blocks and with segment switches (`.segment \"x\"` without a block) behind code that belongs to the first segment; D: promotion ladders of chain length 1..40 (quick) / 1..90 (thorough) from two start addresses, which need chain+5 passes to settle. Every *successful* build is certified: label/block symbols = cursor addresses, every statement's bytes = ISA/evaluator result under the implementation's final symbols, no unexplained bytes, segments.x.start/end = ranges, VICE symbols = label values, and the bank image into which the segments are merged holds every statement's bytes at (address - image start) and 0 elsewhere. non-trivial = distinct assembled program containing at least one symbol reference",
         true,
         &[
             "sequence length bound k (4 quick / 5 thorough), two label names, fixed literal operands",
